@@ -153,3 +153,26 @@ Theorem C06_enumerates_complete :
     P u -> prev < u -> u <= last_z prev (oks l) -> In u (oks l).
 Proof. exact enumerates_complete. Qed.
 Print Assumptions C06_enumerates_complete.
+
+(* ---- the tie to the source by translation (tools/gen_prod.py, coq/gen/GenProd.v, GenProdEq.v): the generated
+   TimeProducer.get_next, TimeReplacer.replace and find_time_after_dst_switch compute the model's next_time / replace /
+   find_after ---- *)
+From EAS Require GenRtProd GenProdEq.
+Theorem C06_generated_source_recognised : EASGen.GenProd.gen_prod_status_v = EASGen.GenProd.GenProdOk.
+Proof. exact GenProdEq.gen_prod_recognised. Qed.
+Print Assumptions C06_generated_source_recognised.
+Theorem C06_generated_time_is_model : forall E R fuel tr f dt st,
+  (forall tr day s, GenRtProd.r_replace R tr day s = Some (s, GenRtProd.of_rres (replace (pz E) tr day))) ->
+  GenProdEq.allow_ok E R f ->
+  EASGen.GenProd.g_time_get_next E R fuel tr f dt st = GenRtProd.lift (get_next E (PTime tr f) st dt).
+Proof. exact GenProdEq.gen_time_get_next_eq. Qed.
+Print Assumptions C06_generated_time_is_model.
+Theorem C06_generated_replace : forall E R fuel tr day s,
+  (forall d t s, GenRtProd.r_find_after R d t s = Some (s, GenRtProd.of_rres (find_after (pz E) d t))) ->
+  EASGen.GenProd.g_replace E R fuel (tr_tod tr) (tr_sk tr) (tr_rp tr) day s = Some (s, GenRtProd.of_rres (replace (pz E) tr day)).
+Proof. exact GenProdEq.gen_replace_eq. Qed.
+Print Assumptions C06_generated_replace.
+Theorem C06_generated_find_after : forall E R fuel day tod s,
+  GenProdEq.coarse_pm (EASGen.GenProd.g_find_after E R fuel day tod s) = Some (s, GenRtProd.of_rres (find_after (pz E) day tod)).
+Proof. exact GenProdEq.gen_find_after_eq. Qed.
+Print Assumptions C06_generated_find_after.
